@@ -10,6 +10,25 @@ TRUST = ("trusts the Go type checker, go/cfg, go/ssa, the documented semantics o
 
 # property id -> (claimed text, technique, design_ref)   (only built properties appear here)
 CLAIMS = {
+    "C05": (
+        "Decides for package num: the only float→integer path is int64(math.Round(x)) (half away from zero, sign-symmetric) and the "
+        "precision-changing operations still round with it; a symbolic decimal-scale type system over every amount operation (values carry "
+        "their exponent, intPow(10,e) carries e, products add, quotients subtract; sums/differences/comparisons need equal scales; every Amount "
+        "literal is labelled with the scale of its value; each result carries its documented precision); nothing is computed from the result of "
+        "a floating-point division before rounding (single inexact step); the ±2 percentage shift and the Of/From/Factor/Remove definitions; "
+        "Split's remainder identity; the threshold rules' truth table against the relation each constructor's error names; Compare's sign "
+        "table. Not decided: float64 exactness inside 2^52 (numerical), overflow.",
+        "static analysis: primitive inventory, symbolic exponent-dimension checking on the AST, finite truth-table evaluation",
+        "§4 C05"),
+    "C06": (
+        "Decides: every success return of AmountFromString lies where the input matched a regexp compiled from the very constant "
+        "Amount.JSONSchema publishes, and the two parts are combined only after a range check against MaxInt64; the percentage reader strips "
+        "one optional trailing % and delegates to the amount reader, and its pattern is the amount pattern plus %; both UnmarshalJSON are "
+        "UnmarshalText(unquote(v)), unquote needs a complete pair of quotes around a non-empty body, MarshalText writes String(); the printer "
+        "returns no constant text outside the pattern within the 0–18 decimal domain and prefixes only \"\" or \"-\". Recorded, not decided: "
+        "PercentageFromString accepts \"\" and numbers without % (documented in code). Not decided: round-trip equality for all values.",
+        "static analysis: writer/reader table agreement on a shared constant, branch-fact dataflow to success returns, constant folding",
+        "§4 C06"),
     "C15": (
         "Decides the ownership discipline the property's mechanism states: every write to a package-level variable of the module (assignment, "
         "element/field store, delete, mutating method incl. receiver-mutating module methods) is in initialisation-only code or a Register* "
